@@ -227,9 +227,20 @@ where
                                             );
                                         },
                                         Message::Data(data) => {
-                                            if taken.load(AtomicOrdering::Acquire) < max {
-                                                let taken =
-                                                    taken.fetch_add(1, AtomicOrdering::AcqRel) + 1;
+                                            // reserve one of the `max` slots atomically, so that
+                                            // racing deliveries cannot both pass the limit
+                                            if let Ok(taken) = taken.fetch_update(
+                                                AtomicOrdering::AcqRel,
+                                                AtomicOrdering::Acquire,
+                                                |taken| {
+                                                    if taken < max {
+                                                        Some(taken + 1)
+                                                    } else {
+                                                        None
+                                                    }
+                                                },
+                                            ) {
+                                                let taken = taken + 1;
                                                 call!(
                                                     sink,
                                                     Message::Data(data),
